@@ -7,7 +7,7 @@
    autograd); no smoothness is used except where a derivative is mentioned explicitly. *)
 From Coq Require Import QArith Reals List.
 Import ListNotations.
-From TT Require Import Num NumR NumQ ParamQ ParamI M_leapfrog P_leapfrog P_leapfrog_param.
+From TT Require Import Num NumR NumQ ParamQ ParamI M_leapfrog M_lf_oracle P_leapfrog P_leapfrog_param.
 Open Scope R_scope.
 
 (* The code's arrangement (half step, L x (position, full momentum step), half step BACK with the
@@ -97,25 +97,35 @@ Print Assumptions C16_energy_error_quadratic_in_eps.
 (* energy_error_partial: for a general smooth target the O(eps^2) bound (backward error analysis) is
    NOT proved here; on the implementation it is measured at eps, eps/2, eps/4 on every run. *)
 
-(* The exact rational run used by the correspondence IS the real-valued model (free theorem):
-   Gaussian targets (gradient part of the model) ... *)
+(* The exact run used by the correspondence (gcd-free dyadic arithmetic, model/M_lf_oracle.v) IS the
+   real-valued model of the theorems above (free theorem): reld r d  means  d is undefined or
+   r = mantissa * 2^exponent.  Gaussian targets: the gradient is part of the model ... *)
 Theorem C16_run_is_model_gauss : forall eps Eps L Minv MINV A AA mu MU q Q p P,
-  relq eps Eps -> TT_o_M_leapfrog_o_mass_R R qo relq Minv MINV ->
-  list_R _ _ (list_R R qo relq) A AA -> list_R R qo relq mu MU -> list_R R qo relq q Q -> list_R R qo relq p P ->
-  Coq_o_Init_o_Datatypes_o_prod_R _ _ (list_R R qo relq) _ _ relq
-    (gauss_step NumR eps L Minv A mu q p) (gauss_step NumQ Eps L MINV AA MU Q P).
-Proof. exact gauss_step_exact. Qed.
+  reld eps Eps -> TT_o_M_leapfrog_o_mass_R R dy reld Minv MINV ->
+  list_R _ _ (list_R R dy reld) A AA -> list_R R dy reld mu MU -> list_R R dy reld q Q -> list_R R dy reld p P ->
+  Coq_o_Init_o_Datatypes_o_prod_R _ _ (list_R R dy reld) _ _ reld
+    (gauss_step NumR eps L Minv A mu q p) (gauss_step NumDy Eps L MINV AA MU Q P).
+Proof. exact gauss_step_dyadic. Qed.
 Print Assumptions C16_run_is_model_gauss.
 
-(* ... and any target whose gradient oracle is related. *)
+(* ... any other target: for whatever real function [grad] the recorded oracle is related to
+   (positions written, returned momentum; likewise step()'s pair). *)
 Theorem C16_run_is_model : forall eps Eps L Minv MINV grad GRAD q Q p P,
-  relq eps Eps -> TT_o_M_leapfrog_o_mass_R R qo relq Minv MINV ->
-  (forall x X, list_R R qo relq x X -> list_R R qo relq (grad x) (GRAD X)) ->
-  list_R R qo relq q Q -> list_R R qo relq p P ->
-  Coq_o_Init_o_Datatypes_o_prod_R _ _ (list_R R qo relq) _ _ (list_R R qo relq)
-    (leapfrog NumR eps Minv grad L (q, p)) (leapfrog NumQ Eps MINV GRAD L (Q, P)).
-Proof. exact leapfrog_exact. Qed.
+  reld eps Eps -> TT_o_M_leapfrog_o_mass_R R dy reld Minv MINV ->
+  (forall x X, list_R R dy reld x X -> list_R R dy reld (grad x) (GRAD X)) ->
+  list_R R dy reld q Q -> list_R R dy reld p P ->
+  Coq_o_Init_o_Datatypes_o_prod_R _ _ (list_R R dy reld) _ _ (list_R R dy reld)
+    (leapfrog NumR eps Minv grad L (q, p)) (leapfrog NumDy Eps MINV GRAD L (Q, P)).
+Proof. exact leapfrog_dyadic. Qed.
 Print Assumptions C16_run_is_model.
+Theorem C16_run_is_model_step : forall eps Eps L Minv MINV grad GRAD q Q p P,
+  reld eps Eps -> TT_o_M_leapfrog_o_mass_R R dy reld Minv MINV ->
+  (forall x X, list_R R dy reld x X -> list_R R dy reld (grad x) (GRAD X)) ->
+  list_R R dy reld q Q -> list_R R dy reld p P ->
+  Coq_o_Init_o_Datatypes_o_prod_R _ _ (list_R R dy reld) _ _ reld
+    (hmc_step NumR eps L Minv grad q p) (hmc_step NumDy Eps L MINV GRAD Q P).
+Proof. exact hmc_step_dyadic. Qed.
+Print Assumptions C16_run_is_model_step.
 
 (* non-vacuity: two steps of size 1/2 on the standard normal in one dimension from (1, 0):
    q2 = 17/32, p2 = -105/128; time reversal brings (17/32, 105/128) back to (1, 0). *)
